@@ -546,6 +546,15 @@ class Interp:
             m = models.STR_METHODS.get(name)
             if m is not None:
                 return m(SStr(z3.StringVal(slf)), *args, **kwargs)
+        if isinstance(slf, (list, tuple)) and name == 'count' and (self.symarg(args) or self.symarg(slf)):
+            acc = []
+            for x in slf:
+                r = self.eq(x, args[0])
+                if r is True:
+                    acc.append(z3.IntVal(1))
+                elif r is not False:
+                    acc.append(z3.If(zbool(r), z3.IntVal(1), z3.IntVal(0)))
+            return mk_int(z3.Sum(*acc)) if acc else 0
         if isinstance(slf, dict) and not isinstance(slf, SymDict) and args and isinstance(args[0], Sym):
             if name in ('get', '__getitem__', '__contains__', 'pop', 'setdefault'):
                 return self.dict_sym_lookup(slf, name, args)
